@@ -604,12 +604,13 @@ namespace rkcommon {
     return a;                                                              \
   }                                                                        \
                                                                            \
-  /* "vec op scalar" */                                                    \
+  /* "vec op scalar" ('b' may refer to a component of 'a', e.g. v /= v.x) */ \
   template <typename T, typename U, typename = traits::is_arithmetic_t<U>> \
   inline vec_t<T, 2> &name(vec_t<T, 2> &a, const U &b)                     \
   {                                                                        \
-    a.x op b;                                                              \
-    a.y op b;                                                              \
+    const U s = b;                                                         \
+    a.x op s;                                                              \
+    a.y op s;                                                              \
     return a;                                                              \
   }                                                                        \
                                                                            \
@@ -619,19 +620,21 @@ namespace rkcommon {
             typename = traits::is_arithmetic_t<U>>                         \
   inline vec_t<T, 3, A> &name(vec_t<T, 3, A> &a, const U &b)               \
   {                                                                        \
-    a.x op b;                                                              \
-    a.y op b;                                                              \
-    a.z op b;                                                              \
+    const U s = b;                                                         \
+    a.x op s;                                                              \
+    a.y op s;                                                              \
+    a.z op s;                                                              \
     return a;                                                              \
   }                                                                        \
                                                                            \
   template <typename T, typename U, typename = traits::is_arithmetic_t<U>> \
   inline vec_t<T, 4> &name(vec_t<T, 4> &a, const U &b)                     \
   {                                                                        \
-    a.x op b;                                                              \
-    a.y op b;                                                              \
-    a.z op b;                                                              \
-    a.w op b;                                                              \
+    const U s = b;                                                         \
+    a.x op s;                                                              \
+    a.y op s;                                                              \
+    a.z op s;                                                              \
+    a.w op s;                                                              \
     return a;                                                              \
   }
 
